@@ -4,8 +4,11 @@ cd /verif
 python3-vt -m pyvc.driver $1 --func "$2" 2>&1 | python3 -c "
 import json,sys
 raw=sys.stdin.read()
-try: d=json.loads(raw)
+cand=[l for l in raw.splitlines() if l.startswith('{')]
+try: d=json.loads(cand[-1])
 except Exception: print(raw[-3000:]); sys.exit()
+extra=[l for l in raw.splitlines() if not l.startswith('{')]
+if extra: print('   [stdout noise]', ' | '.join(extra)[:300])
 print(d['key'],d['status'],d['error'][-700:])
 for o in d['obligations']:
     if o['status']!='discharged': print('  ',o['status'],o['name'].split('/',1)[1],'|',o['reason'],o.get('time_s'), str(o.get('model',''))[:400])
